@@ -50,7 +50,7 @@ Init ==
     /\ props = <<>> /\ stored = <<>>
     /\ voters = m /\ gtotal = SumW(m) /\ startVoters = m /\ dirty = FALSE
     /\ bal = [a \in Addr \cup {"ms"} |-> IF a = "ms" THEN 0 ELSE 2]
-    /\ qx = [thrq |-> [kind |-> "none", weight |-> 0, p |-> 0, q |-> 0, total |-> 0], lvoters |-> {}, voteq |-> {}]
+    /\ qx = [thrq |-> [kind |-> "none", weight |-> 0, p |-> 0, q |-> 0, total |-> 0], lvoters |-> {}, voteq |-> {}, dtokfail |-> FALSE]
     /\ now = [h |-> 0, t |-> 0] /\ out = <<>>
     /\ snap = <<>> /\ execd = <<>> /\ closedH = <<>> /\ held = <<>> /\ rejEarly = <<>> /\ sameBlk = <<>>
     /\ upd = 0
